@@ -1,7 +1,7 @@
 (* Every file a generator writes is processed as if the line processors were freshly constructed: its content is the
    line-by-line application of the pipeline in its constructed state to the file's complete text, whatever files were
    written before it and however each was chunked. *)
-From Verif Require Import LinePP LinePPThm LinePPRejoinThm LinePPFiles.
+From Verif Require Import LinePP LinePPThm LinePPRejoinThm LinePPFiles LinePPOrder LinePPOrderThm.
 From Coq Require Import Lia.
 Open Scope N_scope.
 
@@ -87,13 +87,38 @@ Qed.
 Lemma reset_idem ps : map pp_reset (map pp_reset ps) = map pp_reset ps.
 Proof. symmetry. apply map_reset_shape, reset_shape. Qed.
 
+(* the no-line-processor branch of _generate_code (plain concatenation) agrees with the line buffer run on an empty pipeline *)
+Lemma split_lines_flat text : concat (map flat (split_lines text)) = text.
+Proof.
+  pose (step := fun (st : unit) (l : line) => (st, l)).
+  pose proof (identity_pipeline_rj unit step (fun st l => eq_refl) [text] tt) as H.
+  rewrite write_rj_linewise, linewise_is_concat_emitted in H. cbn [concat] in H. rewrite app_nil_r in H.
+  assert (E : forall ls, emitted step tt ls = ls) by (induction ls as [|l ls IH]; cbn; [|rewrite IH]; reflexivity).
+  rewrite E in H. exact H.
+Qed.
+
+Lemma emitted_nil ls : emitted pipe_step [] ls = ls.
+Proof. induction ls as [|l ls IH]; cbn; [|rewrite IH]; reflexivity. Qed.
+
+Lemma gen_file_eq ps chunks : gen_file ps chunks = write_builtin (map pp_reset ps) chunks.
+Proof.
+  destruct ps as [|p ps]; [|reflexivity]. cbn [gen_file map].
+  pose proof (write_builtin_shape [] chunks) as Hs.
+  unfold write_builtin in *. rewrite write_rj_linewise in *.
+  destruct (linewise pipe_step [] (concat chunks)) as [ps' out] eqn:E. cbn [fst] in Hs.
+  f_equal.
+  - inversion Hs. reflexivity.
+  - pose proof (linewise_is_concat_emitted (list pp) pipe_step [] (concat chunks)) as H.
+    rewrite E, emitted_nil, split_lines_flat in H. cbn [snd] in H. symmetry. exact H.
+Qed.
+
 (* main theorem: file k of any sequence = line-by-line application of the RESET pipeline to file k's whole text *)
 Theorem gen_files_independent files : forall ps,
     gen_files ps files =
     map (fun f => snd (linewise pipe_step (map pp_reset ps) (concat f))) files.
 Proof.
   induction files as [|f fs IH]; intro ps; cbn [gen_files map]; [reflexivity|].
-  unfold gen_file at 1.
+  rewrite gen_file_eq.
   pose proof (write_builtin_shape (map pp_reset ps) f) as Hs.
   destruct (write_builtin (map pp_reset ps) f) as [ps' out] eqn:E. cbn [fst] in Hs.
   f_equal.
